@@ -31,6 +31,12 @@ def expected_class(code: int, r: bool):
     return base
 
 
+def dict_has(code, vendor):
+    from realcodec import A, ty_of
+    e = A.get_avp_dictionary_entry(code, vendor)
+    return e is not None and ty_of(e["type"](0)) == gen.T_GRP
+
+
 def grouped_keys():
     from realcodec import ty_of
     return {(c, v) for c, v, e in entries() if ty_of(e["type"](0)) == gen.T_GRP}
@@ -135,6 +141,31 @@ def run_cases(res: Result, rng: random.Random, n_msgs: int, hdr_grid: bool, fail
         big.append(a)
         size += len(gen.avpobj_wire(a))
     check_msg(1, 0x80, 999, 1, 2, 3, big, False)
+    # 2b. the same codes under different vendors, at top level and inside groups
+    # OctetString / undefined codes, so that random payloads are valid values
+    twin_codes = [c for c in (25, 33, 44, 60000) if not any((c, v) in gk for v in (0, 10415, 99999))]
+    for i in range(max(10, n_msgs // 10)):
+        code_t = rng.choice(twin_codes)
+        members = []
+        for vendor in (0, 10415, 99999):
+            members.append(gen.rfc_wire(code_t, vendor, (0x80 if vendor else 0) | 0x40, gen.rand_bytes(rng, rng.randrange(1, 9))))
+        inner = b"".join(rng.sample(members, 3))
+        g0 = gen.rfc_wire(456, 0, 0x40, inner)
+        g1 = gen.rfc_wire(456, 10415, 0xc0, b"".join(rng.sample(members, 2)))
+        body = b"".join(rng.sample(members + [g0, g1], 5))
+        hexs = (gen.rfc_header(1, 20 + len(body), 0x80, rng.choice([999, 283, 5000]), 0, 1, 2) + body).hex()
+        tree = gen.rfc_parse_avps(bytes.fromhex(hexs)[20:])
+        paths = [[(code_t, 0)], [(code_t, 10415)], [(code_t, 99999)], [(456, 0), (code_t, 0)], [(456, 0), (code_t, 10415)],
+                 [(456, 10415), (code_t, 0)], [(456, 0), (code_t, 99999)], [(code_t, 5)]]
+        rng.shuffle(paths)
+        line = f"FIND {hexs} " + " ".join("/".join(f"{c}_{v}" for c, v in p) for p in paths)
+        r = d.add(line)
+        for p, o in zip(paths, r.split(";")):
+            want = oracle_find(tree, p, gk | {(456, 10415)} if dict_has(456, 10415) else gk)
+            want_s = "[" + ",".join(f"{c}.{v}.{f}.{data.hex()}" for c, v, f, data in want) + "]"
+            if o != want_s:
+                fails.append({"what": "find_avps result differs from the AVPs at that path of the tree (wire order)",
+                              "line": line[:400], "path": str(p), "real": o[:300], "expected": want_s[:300]})
     # 3. search
     for hexs, avps in msgs:
         if not avps:
@@ -166,7 +197,7 @@ def run_cases(res: Result, rng: random.Random, n_msgs: int, hdr_grid: bool, fail
             paths.append(paths[0])                             # repeated search: cache
         line = f"FIND {hexs} " + " ".join("/".join(f"{c}_{v}" for c, v in p) for p in paths)
         r = d.add(line)
-        outs = r.split(" ")
+        outs = r.split(";")
         for p, o in zip(paths, outs):
             try:
                 want = oracle_find(tree, p, gk)
